@@ -84,4 +84,22 @@ ssize_t_ write(int fd, const void *buf, size_t n) {
 int close(int fd) { return 0; }
 
 // futex wake/wait issued by std's Mutex/Condvar: single-threaded harnesses never block, a wake wakes nobody
-long syscall(long number, ...) { return 0; }
+#include <stdarg.h>
+// getrandom (std's HashMap RandomState): the harness fixes the hash keys to zero so that hashing of
+// concrete strings stays concrete (output must not depend on the keys; that is part of the property)
+static long verif_fill_zero(void *buf, unsigned long len) {
+  unsigned char *b = (unsigned char *)buf;
+  for (unsigned long i = 0; i < len && i < 64; i++) b[i] = 0;
+  return (long)len;
+}
+long syscall(long number, ...) {
+  if (number == 318) { // SYS_getrandom on x86_64
+    va_list ap;
+    va_start(ap, number);
+    void *buf = va_arg(ap, void *);
+    unsigned long len = va_arg(ap, unsigned long);
+    va_end(ap);
+    return verif_fill_zero(buf, len);
+  }
+  return 0; // futex wake/wait: nobody to wake, never blocks
+}
